@@ -49,6 +49,12 @@ def validate(seed=0):
         for k in range(len(f)):
             assert any(f[k] is l[c] or f[k] == l[c] for c in range(len(l)))
         n += 1
+    # sorted_int: same length, every element of sorted(l) is an element of l
+    for _ in range(500):
+        l = [r.randint(-3, 9) for _ in range(r.randint(0, 7))]
+        sl = sorted(l)
+        assert len(sl) == len(l) and all(x in l for x in sl)
+        n += 1
     # isspace / isdigit of a concatenation, exhaustively over short strings
     strs = [""] + ["".join(p) for k in (1, 2) for p in itertools.product(ALPH, repeat=k)]
     for a in strs:
